@@ -23,9 +23,13 @@ type faultDB struct {
 	drop    int
 	hookAt  int // fire the hook before the hookAt-th access from now (0 = disarmed)
 	hook    func()
+	failAt  int // the failAt-th read access from now returns errInjected (0 = disarmed)
+	failed  bool
 	access  int
 	counted bool
 }
+
+var errInjected = errors.New("verif: injected read error")
 
 var errDropped = errors.New("verif: commit dropped")
 
@@ -41,8 +45,9 @@ func (f *faultDB) takeDrop() bool {
 	return false
 }
 
-// touch counts one read access and fires the hook when its turn has come.
-func (f *faultDB) touch() {
+// touch counts one read access, fires the hook when its turn has come, and says whether this access
+// must fail.
+func (f *faultDB) touch() bool {
 	f.mu.Lock()
 	f.access++
 	var h func()
@@ -52,10 +57,18 @@ func (f *faultDB) touch() {
 			h, f.hook = f.hook, nil
 		}
 	}
+	fail := false
+	if f.failAt > 0 {
+		f.failAt--
+		if f.failAt == 0 {
+			fail, f.failed = true, true
+		}
+	}
 	f.mu.Unlock()
 	if h != nil {
 		h()
 	}
+	return fail
 }
 
 func (f *faultDB) Write(fn func(db.Batch) error) error {
@@ -82,14 +95,24 @@ func (f *faultDB) Update(fn func(db.IndexedBatch) error) error {
 	return errDropped
 }
 
-func (f *faultDB) Has(key []byte) (bool, error) { f.touch(); return f.KeyValueStore.Has(key) }
+func (f *faultDB) Has(key []byte) (bool, error) {
+	if f.touch() {
+		return false, errInjected
+	}
+	return f.KeyValueStore.Has(key)
+}
+
 func (f *faultDB) Get(key []byte, cb func([]byte) error) error {
-	f.touch()
+	if f.touch() {
+		return errInjected
+	}
 	return f.KeyValueStore.Get(key, cb)
 }
 
 func (f *faultDB) NewIterator(prefix []byte, ub bool) (db.Iterator, error) {
-	f.touch()
+	if f.touch() {
+		return nil, errInjected
+	}
 	return f.KeyValueStore.NewIterator(prefix, ub)
 }
 
@@ -111,13 +134,23 @@ type hookBatch struct {
 	f *faultDB
 }
 
-func (h *hookBatch) Has(key []byte) (bool, error) { h.f.touch(); return h.IndexedBatch.Has(key) }
+func (h *hookBatch) Has(key []byte) (bool, error) {
+	if h.f.touch() {
+		return false, errInjected
+	}
+	return h.IndexedBatch.Has(key)
+}
+
 func (h *hookBatch) Get(key []byte, cb func([]byte) error) error {
-	h.f.touch()
+	if h.f.touch() {
+		return errInjected
+	}
 	return h.IndexedBatch.Get(key, cb)
 }
 
 func (h *hookBatch) NewIterator(prefix []byte, ub bool) (db.Iterator, error) {
-	h.f.touch()
+	if h.f.touch() {
+		return nil, errInjected
+	}
 	return h.IndexedBatch.NewIterator(prefix, ub)
 }
